@@ -35,6 +35,7 @@ class ClientEnd:
         self.on_rst: Optional[Callable[[], None]] = None
         self.sent = bytearray()
         self._next_arrival = 0.0
+        self._fin_pending = False
 
     # -- actions ---------------------------------------------------------------
     def send(self, data: bytes, latency: Optional[float] = None) -> None:
@@ -83,6 +84,9 @@ class ClientEnd:
             data = bytes(self.pending)
             self.pending.clear()
             self._consume(data)
+        if self._fin_pending:
+            self._fin_pending = False
+            self._arrive_fin()
 
     # -- internals -------------------------------------------------------------
     def _deliver(self, fn: Callable, arg: Optional[bytes], latency: Optional[float]) -> None:
@@ -118,6 +122,9 @@ class ClientEnd:
             self.on_data(data)
 
     def _arrive_fin(self) -> None:
+        if not self.reading:
+            self._fin_pending = True  # seen once the stalled client reads up to it
+            return
         if self.eof_at is None and self.rst_at is None:
             self.eof_at = self.sim.now
             self.sim.rec("c.eof", self.conn.id)
